@@ -226,31 +226,7 @@ func checkC13(c *Ctx) *core.Result {
 			r.OK("X2", core.QualName(g.Init), expr, p.Pos(g.Init.Pos()), "→ "+got.Name())
 		}
 	}
-	vq := a.Fn("xss.st.valueQuote")
-	for role, ch := range map[string]int64{"xss.st.valueSingle": '\'', "xss.st.valueDouble": '"', "xss.st.valueBack": '`'} {
-		fn := a.Fn(role)
-		if fn == nil || vq == nil {
-			continue
-		}
-		found := false
-		for _, ci := range ssax.Calls(fn) {
-			if ci.Common().StaticCallee() == vq {
-				for _, arg := range ci.Common().Args {
-					if k, ok := ssax.ConstInt(arg); ok {
-						found = true
-						if k == ch {
-							r.OK("X2", core.QualName(fn), fmt.Sprintf("delimiter %q", byte(ch)), p.Pos(ci.Pos()), "")
-						} else {
-							r.Fail("X2", core.QualName(fn), fmt.Sprintf("delimiter %q", byte(ch)), p.Pos(ci.Pos()), fmt.Sprintf("this context's value lexer is called with delimiter %q", byte(k)))
-						}
-					}
-				}
-			}
-		}
-		if !found {
-			r.Fail("X2", core.QualName(fn), fmt.Sprintf("delimiter %q", byte(ch)), p.Pos(fn.Pos()), "does not call the common quoted-value lexer with a constant delimiter")
-		}
-	}
+	quotedValueRules(p, a, g, r, "X2", "X5")
 
 	// ---- X3: fresh state per context
 	freshStateRule(p, a, r, "X3")
@@ -284,70 +260,6 @@ func checkC13(c *Ctx) *core.Result {
 	}
 	if nGT < 5 {
 		r.Fail("vacuity", "-", "'>'-guarded transitions", "-", fmt.Sprintf("only %d '>'-guarded transitions recognised (expected ≥ 5)", nGT))
-	}
-
-	// ---- X5: a quoted-value start state consumes nothing when entered at pos 0
-	if vq != nil {
-		posField := a.Fields["xss.state.pos"]
-		var search ssa.Instruction
-		for _, ci := range ssax.Calls(vq) {
-			if f := ci.Common().StaticCallee(); f != nil && f.String() == "strings.IndexByte" {
-				search = ci
-				break
-			}
-		}
-		if search == nil {
-			r.Fail("X5", core.QualName(vq), "terminator search", p.Pos(vq.Pos()), "the quoted-value lexer has no IndexByte terminator search (undecided)")
-		} else {
-			posWriters := mayWriteField(p, g.stName, posField)
-			for _, b := range vq.Blocks {
-				for _, ins := range b.Instrs {
-					// a store to the cursor, or a call of a helper that may store to it
-					var st ssa.Instruction
-					switch x := ins.(type) {
-					case *ssa.Store:
-						if fr, ok := ssax.AsFieldAddr(x.Addr); ok && fr.Field == posField {
-							st = x
-						}
-					case *ssa.Call:
-						if cal := x.Call.StaticCallee(); cal != nil && p.InModule(cal) && posWriters[cal] {
-							st = x
-						}
-					}
-					if st == nil || !ssax.Reachable(b, search.Block()) || b == search.Block() && ssax.InstrIndex(st) > ssax.InstrIndex(search) {
-						continue
-					}
-					if b != search.Block() && !b.Dominates(search.Block()) && !ssax.Reachable(b, search.Block()) {
-						continue
-					}
-					// a pos update before the search: must be guarded by pos > 0 only
-					guardOK := false
-					extra := ""
-					for _, f := range ssax.Facts(b) {
-						bo, ok := f.Cond.(*ssa.BinOp)
-						if !ok {
-							continue
-						}
-						if a.loadsField(bo.X, "xss.state.pos") {
-							if k, ok := ssax.ConstInt(bo.Y); ok && k == 0 && ((bo.Op == token.GTR && f.True) || (bo.Op == token.NEQ && f.True) || (bo.Op == token.LEQ && !f.True) || (bo.Op == token.EQL && !f.True)) {
-								guardOK = true
-								continue
-							}
-						}
-						extra = f.Cond.String()
-					}
-					expr := "opening-quote skip before the terminator search"
-					switch {
-					case !guardOK:
-						r.Fail("X5", core.QualName(vq), expr, p.Pos(st.Pos()), "the cursor is advanced before the search without the `pos > 0` guard: entered as a start state (pos 0) the lexer would swallow the first byte of the value, so the context verdict no longer equals that of the embedded markup")
-					case extra != "":
-						r.Fail("X5", core.QualName(vq), expr, p.Pos(st.Pos()), "the opening-quote skip depends on more than `pos > 0` ("+extra+"): quoted context and embedded markup are no longer tokenized alike")
-					default:
-						r.OK("X5", core.QualName(vq), expr, p.Pos(st.Pos()), "guarded by pos > 0 only")
-					}
-				}
-			}
-		}
 	}
 
 	r.Extra["state_graph"] = g.describe(p)
@@ -700,4 +612,103 @@ func x1LoopForm(c *Ctx, r *core.Result, root, ctx *ssa.Function, specFlags map[i
 		}
 	}
 	return true
+}
+
+// quotedValueRules: the three quoted start states hand their own quote byte to
+// the common quoted-value lexer (rule rq), and that lexer skips an opening
+// quote before its terminator search under `pos > 0` only — entered as a start
+// state it consumes nothing (rule rs).  Used by C13/C15 (X2, X5) and by C17
+// (T-quote, T-skip: the value token of a quoted start context has offset 0 and
+// ends at the first matching quote).
+func quotedValueRules(p *core.Program, a *Anchors, g *stateGraph, r *core.Result, rq, rs string) {
+	vq := a.Fn("xss.st.valueQuote")
+	for role, ch := range map[string]int64{"xss.st.valueSingle": '\'', "xss.st.valueDouble": '"', "xss.st.valueBack": '`'} {
+		fn := a.Fn(role)
+		if fn == nil || vq == nil {
+			continue
+		}
+		found := false
+		for _, ci := range ssax.Calls(fn) {
+			if ci.Common().StaticCallee() == vq {
+				for _, arg := range ci.Common().Args {
+					if k, ok := ssax.ConstInt(arg); ok {
+						found = true
+						if k == ch {
+							r.OK(rq, core.QualName(fn), fmt.Sprintf("delimiter %q", byte(ch)), p.Pos(ci.Pos()), "")
+						} else {
+							r.Fail(rq, core.QualName(fn), fmt.Sprintf("delimiter %q", byte(ch)), p.Pos(ci.Pos()), fmt.Sprintf("this context's value lexer is called with delimiter %q", byte(k)))
+						}
+					}
+				}
+			}
+		}
+		if !found {
+			r.Fail(rq, core.QualName(fn), fmt.Sprintf("delimiter %q", byte(ch)), p.Pos(fn.Pos()), "does not call the common quoted-value lexer with a constant delimiter")
+		}
+	}
+
+	// ---- X5: a quoted-value start state consumes nothing when entered at pos 0
+	if vq != nil {
+		posField := a.Fields["xss.state.pos"]
+		var search ssa.Instruction
+		for _, ci := range ssax.Calls(vq) {
+			if f := ci.Common().StaticCallee(); f != nil && f.String() == "strings.IndexByte" {
+				search = ci
+				break
+			}
+		}
+		if search == nil {
+			r.Fail(rs, core.QualName(vq), "terminator search", p.Pos(vq.Pos()), "the quoted-value lexer has no IndexByte terminator search (undecided)")
+		} else {
+			posWriters := mayWriteField(p, g.stName, posField)
+			for _, b := range vq.Blocks {
+				for _, ins := range b.Instrs {
+					// a store to the cursor, or a call of a helper that may store to it
+					var st ssa.Instruction
+					switch x := ins.(type) {
+					case *ssa.Store:
+						if fr, ok := ssax.AsFieldAddr(x.Addr); ok && fr.Field == posField {
+							st = x
+						}
+					case *ssa.Call:
+						if cal := x.Call.StaticCallee(); cal != nil && p.InModule(cal) && posWriters[cal] {
+							st = x
+						}
+					}
+					if st == nil || !ssax.Reachable(b, search.Block()) || b == search.Block() && ssax.InstrIndex(st) > ssax.InstrIndex(search) {
+						continue
+					}
+					if b != search.Block() && !b.Dominates(search.Block()) && !ssax.Reachable(b, search.Block()) {
+						continue
+					}
+					// a pos update before the search: must be guarded by pos > 0 only
+					guardOK := false
+					extra := ""
+					for _, f := range ssax.Facts(b) {
+						bo, ok := f.Cond.(*ssa.BinOp)
+						if !ok {
+							continue
+						}
+						if a.loadsField(bo.X, "xss.state.pos") {
+							if k, ok := ssax.ConstInt(bo.Y); ok && k == 0 && ((bo.Op == token.GTR && f.True) || (bo.Op == token.NEQ && f.True) || (bo.Op == token.LEQ && !f.True) || (bo.Op == token.EQL && !f.True)) {
+								guardOK = true
+								continue
+							}
+						}
+						extra = f.Cond.String()
+					}
+					expr := "opening-quote skip before the terminator search"
+					switch {
+					case !guardOK:
+						r.Fail(rs, core.QualName(vq), expr, p.Pos(st.Pos()), "the cursor is advanced before the search without the `pos > 0` guard: entered as a start state (pos 0) the lexer would swallow the first byte of the value, so the context verdict no longer equals that of the embedded markup")
+					case extra != "":
+						r.Fail(rs, core.QualName(vq), expr, p.Pos(st.Pos()), "the opening-quote skip depends on more than `pos > 0` ("+extra+"): quoted context and embedded markup are no longer tokenized alike")
+					default:
+						r.OK(rs, core.QualName(vq), expr, p.Pos(st.Pos()), "guarded by pos > 0 only")
+					}
+				}
+			}
+		}
+	}
+
 }
